@@ -63,11 +63,10 @@ def PHand (i : Id) (isListener : Bool) : HandOverPrims MHand where
   pollSetClient m f := { m with st := pollSet m.st m.nc f }
   handOver m :=
     let r := callback m.st i (some m.nc)
-    match r.1.clients m.nc with
-    | some c => { m with st := { r.1 with clients := upd r.1.clients m.nc (some { c with hasCb := !(r.2.any isRetNull) }) } }
-    | none => { m with st := r.1 }
-  hasCallback m := match m.st.clients m.nc with | some c => c.hasCb | none => false
-  removedFlag m := match m.st.clients m.nc with | some c => c.removed | none => true
+    let cl : Option ClientS := (r.1.clients m.nc).map (fun c => { c with hasCb := !(r.2.any isRetNull) })
+    { m with st := { r.1 with clients := upd r.1.clients m.nc cl } }
+  hasCallback m := ((m.st.clients m.nc).map (·.hasCb)).getD false
+  removedFlag m := ((m.st.clients m.nc).map (·.removed)).getD true
   deleteClient m := { m with st := deleteClient m.st m.nc }
 
 end Nstd.Server.Tr
